@@ -235,6 +235,9 @@ def run(ck, facts, tier):
         except Unsupported as e:
             ck.fail(r6, "rate[%s]" % variant, "rule could not be established (%s)" % e, where)
     # "rejected ... and never yield rates", "returned exactly as quoted" also after updates and derivative-order switches: the market's state rules (C10 R10.3-R10.6)
+    # "invalid quote sets are rejected and never yield rates" also when they arrive as a stored market: the loader goes through try_new (C20 S20.2)
+    from rules import c20
+    c20.loader_rule(ck, facts, only={"fx::rates::FXRates"})
     from rules import c10
     nd, tb = list(ck.not_decided), list(ck.trusted)
     c10.run(ck, facts, tier, only={"R10.3", "R10.4", "R10.5", "R10.6"})
